@@ -152,14 +152,19 @@ class OpenmlSource(Source[Iterable[Tuple[Union[MutableSequence, MutableMapping],
         # Openml doesn't publish any rate-limiting guidelines, so our staggering is a guess.
         if semaphore: time.sleep(2*random())
 
+        started = False
+
         try:
             KB = 1024
             MB = 1024*KB
-            if api_key: url = f"{url}?api_key={api_key}"
-            yield from HttpSource(url, timeout=timeout, chunk_size=10*MB).read()
+            keyed_url = f"{url}?api_key={api_key}" if api_key else url
+            for line in HttpSource(keyed_url, timeout=timeout, chunk_size=10*MB).read():
+                started = True
+                yield line
 
         except TimeoutError:
-            if tries == 3: raise
+            #lines that were already handed out can't be taken back so a retry would duplicate them
+            if tries == 3 or started: raise
             yield from self._http_request(url, timeout=5**(tries+1), tries=tries+1)
 
         except request.HTTPError as e:
